@@ -75,7 +75,8 @@ def eval_cond(rm, cls, cond, dvar, value):
     display, a range or the keys of a dict display."""
     def is_dvar(x):
         return x == ("attr", SELF, dvar) or (dvar == "reaction_type" and x == ("attr", ("param", "reac"), "reaction_type")) \
-            or (x[0] == "call" and x[1] == ("global", "int") and len(x[2]) == 1 and not x[3] and is_dvar(x[2][0]))
+            or (x[0] == "call" and x[1] == ("global", "int") and len(x[2]) == 1 and not x[3] and is_dvar(x[2][0])) \
+            or (x[0] == "attr" and x[2] == "value" and is_dvar(x[1]))
 
     def val(x):
         return value if is_dvar(x) else rm.enum_of_ir(cls, x)
@@ -258,10 +259,13 @@ def _r1(ctx, rm, pkg, allv):
     ctx.floor("R1", "sign-adjacent variants", n, 15)
     # the clean-up table itself, read off the value _beautify returns: a chain of str.replace(old, new) over its argument -- however the
     # chain is spelled (method chain, successive assignments, a loop over a literal / module-level table of pairs, unrolled at parse time)
-    fn = pkg.method("Reaction", "_beautify")
-    ctx.saw("naunet/reactions/reaction.py", "Reaction._beautify")
-    W = ("naunet/reactions/reaction.py", fn.lineno)
-    fl = Flow(fn, "naunet/reactions/reaction.py", consts=rm.module_consts("naunet/reactions/reaction.py"))
+    bc, fn = pkg.resolve("Reaction", "_beautify")          # (wherever in the MRO it is defined)
+    if fn is None:
+        fn = pkg.method("Reaction", "_beautify")
+    bfile = pkg.cls(bc).file
+    ctx.saw(bfile, f"{bc}._beautify")
+    W = (bfile, fn.lineno)
+    fl = Flow(fn, bfile, consts=rm.module_consts(bfile))
     rets = [f for f in fl.facts if f.kind == "return"]
     params = [a.arg for a in fn.args.args][1:]
     chain, base = [], None
@@ -605,3 +609,20 @@ BENIGN += [dict(_kida_dict("0.4767"), name="kida-laws-in-local-dict"),
            {"name": "kida-formula-range-test", "file": K, "old": "        elif formula == 6:\n", "new": "        elif 5 < formula <= 6:\n"}]
 MUTANTS += [dict(_kida_dict("0.4667"), name="kida-local-dict-wrong-constant", rules=["R3"]),
             {"name": "kida-range-test-swallows-ip2", "file": K, "old": "        elif formula == 5:\n", "new": "        elif formula > 5:\n", "rules": ["R2", "R3"]}]
+
+RT = "naunet/reactiontype.py"
+_RT_END = "    UNKNOWN = 999\n    DUMMY = 1000\n"
+
+
+def _grain_types_imported(skip=""):
+    """the grain-delegated types kept in the module that defines ReactionType and imported from there"""
+    tup = _GTUPLE.replace("_ON_GRAIN", "ON_GRAIN").replace(skip, "") if skip else _GTUPLE.replace("_ON_GRAIN", "ON_GRAIN")
+    return [{"file": RT, "old": _RT_END, "new": _RT_END + "\n\n" + tup.rstrip("\n") + "\n"},
+            {"file": R, "old": "from ..reactiontype import ReactionType\n", "new": "from ..reactiontype import ReactionType, ON_GRAIN\n"},
+            {"file": R, "old": _GLIST_OLD, "new": "        elif rtype in ON_GRAIN:\n"}]
+
+
+BENIGN.append({"name": "grain-types-imported-tuple", "edits": _grain_types_imported()})
+MUTANTS.append({"name": "grain-imported-tuple-missing-type", "edits": _grain_types_imported("    ReactionType.GRAIN_DESORB_H2,\n"), "rules": ["R2"]})
+BENIGN.append({"name": "kida-law-by-percent-format", "file": K, "old": '            rate = f"{a} * zeta"\n', "new": '            rate = "%s * zeta" % a\n'})
+MUTANTS.append({"name": "kida-percent-format-wrong-symbol", "file": K, "old": '            rate = f"{a} * zeta"\n', "new": '            rate = "%s * zeta * %s" % (a, b)\n', "rules": ["R3"]})
